@@ -59,6 +59,9 @@ def describe(x, sim=None, with_value=True):
 
 def diff_desc(a, b, fields=FIELDS + ("value",)):
     for f in fields:
+        if f == "value" and (str(a.get(f)).startswith("raised") or str(b.get(f)).startswith("raised")):
+            # a program that does not compute at all (on either side) is C01's matter, not a naming one
+            continue
         if a.get(f) != b.get(f):
             return f, a.get(f), b.get(f)
     return None
